@@ -14,12 +14,15 @@ import (
 	"io"
 	"os"
 	"path/filepath"
+	"runtime"
 	"sort"
 	"strings"
 	"time"
 
+	"github.com/jf-tech/omniparser"
 	"github.com/jf-tech/omniparser/errs"
 	"github.com/jf-tech/omniparser/idr"
+	"github.com/jf-tech/omniparser/transformctx"
 
 	"verifharness/cmd/c04/sx"
 	"verifharness/vh"
@@ -43,6 +46,41 @@ type Case struct {
 	Order   []int      `json:"order,omitempty"`
 	Indexed bool       `json:"indexed,omitempty"`
 	Kind    string     `json:"kind,omitempty"` // scenario name (for the histogram)
+	Heap    bool       `json:"heap,omitempty"` // live-heap run: no logging wrapper, lazily generated input
+}
+
+// lazyInput produces the input of a case piece by piece, so that a long input is never held in
+// memory as a whole.
+type lazyInput struct {
+	c   *Case
+	i   int // next record; -1 before Open, Count after the last record, Count+1 at the end
+	buf []byte
+}
+
+func (l *lazyInput) Read(p []byte) (int, error) {
+	for len(l.buf) == 0 {
+		switch {
+		case l.i == -1:
+			l.buf = []byte(l.c.Open)
+		case l.i < l.c.Count:
+			rec := l.c.Recs[l.c.recIndex(l.i)]
+			if l.c.Indexed {
+				rec = strings.ReplaceAll(rec, "#I#", fmt.Sprint(l.i))
+			}
+			if l.i > 0 {
+				rec = l.c.Joiner + rec
+			}
+			l.buf = []byte(rec)
+		case l.i == l.c.Count:
+			l.buf = []byte(l.c.Close)
+		default:
+			return 0, io.EOF
+		}
+		l.i++
+	}
+	n := copy(p, l.buf)
+	l.buf = l.buf[n:]
+	return n, nil
 }
 
 func (c *Case) recIndex(i int) int {
@@ -195,9 +233,12 @@ func hdr(format string) string {
 
 // FINAL_OUTPUT: b is int-typed, so a record with a non-numeric b fails its transform with a
 // continuable error; x (if given) is extra leading text such as the xpath filter.
-func finalOutput(x string) string {
+func finalOutput(x string) string { return finalOutputP(x, "") }
+
+// finalOutputP: the fields live below prefix (group targets: "R/", "DAT/").
+func finalOutputP(x, prefix string) string {
 	return `"transform_declarations": { "FINAL_OUTPUT": { ` + x + ` "object": {
-  "a": { "xpath": "a" }, "b": { "xpath": "b", "type": "int" }, "c": { "xpath": "c" } } } }`
+  "a": { "xpath": "` + prefix + `a" }, "b": { "xpath": "` + prefix + `b", "type": "int" }, "c": { "xpath": "` + prefix + `c" } } } }`
 }
 
 func pad(s string, n int) string {
@@ -214,6 +255,7 @@ func jsonQuote(s string) string {
 
 type flatFixture struct {
 	format     string
+	variant    string // "" = the plain single-record target
 	schema     func(filter bool) string
 	open, clos string
 	rec        func(a, b, c string) string
@@ -261,6 +303,73 @@ func flatFixtures() []flatFixture {
   { "name": "R", "is_target": true, "header": "^R", "columns": [
   {"name":"a","start_pos":2,"length":6}, {"name":"b","start_pos":8,"length":5}, {"name":"c","start_pos":13,"length":6} ] } ] }, ` + finalOutput(fltFixed(f)) + `}`
 		}, open: "Hhead\n", rec: func(a, b, c string) string { return "R" + pad(a, 6) + pad(b, 5) + pad(c, 6) + "\n" }},
+		// ---- targets that have child records / are groups (a rejected instance is a whole subtree) ----
+		{format: "edi", variant: "group-target", schema: func(f bool) string {
+			x := ""
+			if f {
+				x = `"xpath": ".[DAT/a != 'skip']",`
+			}
+			return `{` + hdr("edi") + `, "file_declaration": { "segment_delimiter": "~", "element_delimiter": "*",
+  "ignore_crlf": true,
+  "segment_declarations": [ { "name": "HDR", "min": 0 },
+    { "name": "LP", "type": "segment_group", "is_target": true, "min": 0, "max": -1, "child_segments": [
+      { "name": "DAT", "elements": [ {"name":"a","index":1}, {"name":"b","index":2}, {"name":"c","index":3} ] },
+      { "name": "SUB", "min": 0, "max": -1, "elements": [ {"name":"d","index":1} ] } ] },
+    { "name": "TRL", "min": 0 } ] }, ` + finalOutputP(x, "DAT/") + `}`
+		}, open: "HDR*1~", clos: "TRL*9~", rec: func(a, b, c string) string { return "DAT*" + a + "*" + b + "*" + c + "~SUB*1~SUB*2~" }, sep: "\n"},
+		{format: "csv2", variant: "child-records", schema: func(f bool) string {
+			return `{` + hdr("csv2") + `, "file_declaration": { "delimiter": "|",
+  "records": [ { "name": "H", "header": "^H", "min": 0, "max": 1 },
+    { "name": "R", "is_target": true, "header": "^R", "columns": [ {"name":"a","index":2}, {"name":"b","index":3}, {"name":"c","index":4} ],
+      "child_records": [ { "name": "C", "header": "^C", "min": 0, "max": -1, "columns": [ {"name":"d","index":2} ] } ] } ] }, ` + finalOutput(flt(f)) + `}`
+		}, open: "H|head\n", rec: func(a, b, c string) string { return "R|" + a + "|" + b + "|" + c + "\nC|1\nC|2\n" }, sep: "\n"},
+		{format: "csv2", variant: "group-target", schema: func(f bool) string {
+			x := ""
+			if f {
+				x = `"xpath": ".[R/a != 'skip']",`
+			}
+			return `{` + hdr("csv2") + `, "file_declaration": { "delimiter": "|",
+  "records": [ { "name": "G", "type": "record_group", "is_target": true, "min": 0, "max": -1, "child_records": [
+    { "name": "R", "header": "^R", "columns": [ {"name":"a","index":2}, {"name":"b","index":3}, {"name":"c","index":4} ] },
+    { "name": "C", "header": "^C", "min": 0, "max": -1, "columns": [ {"name":"d","index":2} ] } ] } ] }, ` + finalOutputP(x, "R/") + `}`
+		}, rec: func(a, b, c string) string { return "R|" + a + "|" + b + "|" + c + "\nC|1\n" }},
+		{format: "csv2", variant: "rows-based", schema: func(f bool) string {
+			return `{` + hdr("csv2") + `, "file_declaration": { "delimiter": "|",
+  "records": [ { "name": "R", "is_target": true, "min": 0, "max": -1, "columns": [ {"name":"a","index":1}, {"name":"b","index":2}, {"name":"c","index":3} ] } ] }, ` + finalOutput(flt(f)) + `}`
+		}, rec: func(a, b, c string) string { return a + "|" + b + "|" + c + "\n" }},
+		{format: "csv2", variant: "header-footer", schema: func(f bool) string {
+			return `{` + hdr("csv2") + `, "file_declaration": { "delimiter": "|",
+  "records": [ { "name": "R", "is_target": true, "header": "^B", "footer": "^E", "min": 0, "max": -1,
+      "columns": [ {"name":"a","index":2,"line_pattern":"^B"}, {"name":"b","index":3,"line_pattern":"^B"}, {"name":"c","index":2,"line_pattern":"^E"} ] } ] }, ` + finalOutput(flt(f)) + `}`
+		}, rec: func(a, b, c string) string { return "B|" + a + "|" + b + "\nM|x\nE|" + c + "\n" }},
+		{format: "fixedlength2", variant: "child-envelopes", schema: func(f bool) string {
+			return `{` + hdr("fixedlength2") + `, "file_declaration": { "envelopes": [
+  { "name": "H", "header": "^H", "min": 0, "max": 1 },
+  { "name": "R", "is_target": true, "header": "^R", "columns": [
+  {"name":"a","start_pos":2,"length":6}, {"name":"b","start_pos":8,"length":5}, {"name":"c","start_pos":13,"length":6} ],
+    "child_envelopes": [ { "name": "C", "header": "^C", "min": 0, "max": -1, "columns": [ {"name":"d","start_pos":2,"length":3} ] } ] } ] }, ` + finalOutput(fltFixed(f)) + `}`
+		}, open: "Hhead\n", rec: func(a, b, c string) string { return "R" + pad(a, 6) + pad(b, 5) + pad(c, 6) + "\nC001\nC002\n" }},
+		{format: "fixedlength2", variant: "group-target", schema: func(f bool) string {
+			x := ""
+			if f {
+				x = `"xpath": ".[not(starts-with(R/a, 'skip'))]",`
+			}
+			return `{` + hdr("fixedlength2") + `, "file_declaration": { "envelopes": [
+  { "name": "G", "type": "envelope_group", "is_target": true, "min": 0, "max": -1, "child_envelopes": [
+    { "name": "R", "header": "^R", "columns": [
+      {"name":"a","start_pos":2,"length":6}, {"name":"b","start_pos":8,"length":5}, {"name":"c","start_pos":13,"length":6} ] },
+    { "name": "C", "header": "^C", "min": 0, "max": -1, "columns": [ {"name":"d","start_pos":2,"length":3} ] } ] } ] }, ` + finalOutputP(x, "R/") + `}`
+		}, rec: func(a, b, c string) string { return "R" + pad(a, 6) + pad(b, 5) + pad(c, 6) + "\nC001\n" }},
+		{format: "fixedlength2", variant: "rows-based", schema: func(f bool) string {
+			return `{` + hdr("fixedlength2") + `, "file_declaration": { "envelopes": [
+  { "name": "R", "is_target": true, "rows": 2, "min": 0, "max": -1, "columns": [
+  {"name":"a","start_pos":1,"length":6,"line_index":1}, {"name":"b","start_pos":7,"length":5,"line_index":1}, {"name":"c","start_pos":1,"length":6,"line_index":2} ] } ] }, ` + finalOutput(fltFixed(f)) + `}`
+		}, rec: func(a, b, c string) string { return pad(a, 6) + pad(b, 5) + "\n" + pad(c, 6) + "\n" }},
+		{format: "fixedlength2", variant: "header-footer", schema: func(f bool) string {
+			return `{` + hdr("fixedlength2") + `, "file_declaration": { "envelopes": [
+  { "name": "R", "is_target": true, "header": "^B", "footer": "^E", "min": 0, "max": -1, "columns": [
+  {"name":"a","start_pos":2,"length":6,"line_pattern":"^B"}, {"name":"b","start_pos":8,"length":5,"line_pattern":"^B"}, {"name":"c","start_pos":2,"length":6,"line_pattern":"^E"} ] } ] }, ` + finalOutput(fltFixed(f)) + `}`
+		}, rec: func(a, b, c string) string { return "B" + pad(a, 6) + pad(b, 5) + "\nMx\nE" + pad(c, 6) + "\n" }},
 	}
 }
 
@@ -302,6 +411,15 @@ func order(r *vh.Rng, filter bool, tfail string) (prefix, ord []int) {
 		if len(prefix) > 0 && r.Chance(0.5) {
 			prefix = append([]int{1, 1}, prefix...)
 		}
+		// runs of consecutive rejections (several rejected instances within ONE reader Read)
+		for k, runs := 0, r.Between(1, 3); k < runs; k++ {
+			p := r.Pick(len(ord) + 1)
+			run := make([]int, r.Between(2, 6))
+			for i := range run {
+				run[i] = 1
+			}
+			ord = append(ord[:p:p], append(run, ord[p:]...)...)
+		}
 	}
 	return prefix, ord
 }
@@ -312,7 +430,7 @@ func vals(r *vh.Rng) (a, a2, b, b2, c string) {
 
 func flatCase(fx flatFixture, filter, sep bool, tfail string, count int, r *vh.Rng) *Case {
 	c := &Case{Format: fx.format, Schema: fx.schema(filter), Open: fx.open, Close: fx.clos, Count: count,
-		Kind: fmt.Sprintf("filter=%v sep=%v tfail=%s", filter, sep, tfail)}
+		Kind: fmt.Sprintf("%s filter=%v sep=%v tfail=%s", fx.variant, filter, sep, tfail)}
 	if sep {
 		c.Joiner = fx.sep
 	}
@@ -449,7 +567,7 @@ func jsonCase(shape string, scalar, filter bool, tfail string, count int, r *vh.
 // ---- running one case ------------------------------------------------------------------------------
 
 const coqCap = 4000      // records per Coq case of a record-at-a-time reader (the Go oracle sees all of them)
-const coqStreamCap = 120 // records per Coq case of the XML/JSON stream readers: the model is rerun on a shorter input
+const coqStreamCap = 80 // records per Coq case of the XML/JSON stream readers: the model is rerun on a shorter input
 
 func runCase(o *vh.Opts, c *Case, sum *vh.Summary, cw *vh.CaseWriter, verbose bool) (nontrivial bool) {
 	vh.Current(o, c)
@@ -589,10 +707,140 @@ func runCase(o *vh.Opts, c *Case, sum *vh.Summary, cw *vh.CaseWriter, verbose bo
 	return nt
 }
 
+// ---- live heap: retention outside the node tree ---------------------------------------------------
+
+// liveHeap is the live heap after garbage collection: the minimum of three collected samples, so
+// that a transient (a pool being refilled, a finalizer round) does not count.
+func liveHeap() uint64 {
+	best := ^uint64(0)
+	var ms runtime.MemStats
+	for i := 0; i < 3; i++ {
+		runtime.GC()
+		runtime.ReadMemStats(&ms)
+		if ms.HeapAlloc < best {
+			best = ms.HeapAlloc
+		}
+	}
+	return best
+}
+
+// heapRun streams a long, lazily generated input through a plain (unwrapped) Transform and samples
+// the live heap at regular intervals after a warm-up.  The oracle: the live heap in the last third
+// of the run is not more than slack bytes above the live heap in the first third.
+func heapRun(o *vh.Opts, c *Case, sum *vh.Summary, slack uint64, verbose bool) bool {
+	vh.Current(o, c)
+	type sample struct {
+		Reads int    `json:"reads"`
+		Heap  uint64 `json:"live_heap"`
+	}
+	var samples []sample
+	fin := ""
+	reads := 0
+	func() {
+		defer func() {
+			if p := recover(); p != nil {
+				fin = fmt.Sprint("panic: ", p)
+			}
+		}()
+		s, err := omniparser.NewSchema("c17-heap-"+c.Format, strings.NewReader(c.Schema))
+		if err != nil {
+			fin = "schema: " + err.Error()
+			return
+		}
+		t, err := s.NewTransform("in", &lazyInput{c: c, i: -1}, &transformctx.Ctx{})
+		if err != nil {
+			fin = "newtransform: " + err.Error()
+			return
+		}
+		expect := 0
+		for i := 0; i < c.Count; i++ {
+			if c.passes(i) {
+				expect++
+			}
+		}
+		every := expect / 16
+		if every < 1 {
+			every = 1
+		}
+		start := time.Now()
+		for {
+			_, err := t.Read()
+			if err == io.EOF {
+				fin = "EOF"
+				break
+			}
+			if err != nil && !errs.IsErrTransformFailed(err) {
+				fin = "error: " + err.Error()
+				break
+			}
+			reads++
+			if reads%1000 == 0 && time.Since(start) > heapDeadline {
+				fin = fmt.Sprintf("gave up after %v and %d of about %d records: the time per record grows with the number of records read", heapDeadline, reads, expect)
+				break
+			}
+			if reads%every == 0 && reads >= expect/4 {
+				samples = append(samples, sample{reads, liveHeap()})
+			}
+		}
+		runtime.KeepAlive(t)
+	}()
+	if fin != "EOF" {
+		sum.Fail("the transform did not reach EOF: "+fin, c, nil)
+		return false
+	}
+	if len(samples) < 6 {
+		return false
+	}
+	third := len(samples) / 3
+	lo, hi := ^uint64(0), ^uint64(0)
+	for _, x := range samples[:third] {
+		if x.Heap < lo {
+			lo = x.Heap
+		}
+	}
+	for _, x := range samples[len(samples)-third:] {
+		if x.Heap < hi {
+			hi = x.Heap
+		}
+	}
+	if verbose {
+		fmt.Printf("format=%s kind=%q count=%d reads=%d\nlive heap samples: %v\n", c.Format, c.Kind, c.Count, reads, samples)
+	}
+	growth := int64(hi) - int64(lo)
+	if m, ok := sum.Extra["heap_growth_bytes_last_third_vs_first_third"].(map[string]int64); ok {
+		m[c.Format+" "+c.Kind] = growth
+	} else {
+		sum.Extra["heap_growth_bytes_last_third_vs_first_third"] = map[string]int64{c.Format + " " + c.Kind: growth}
+	}
+	if hi > lo && hi-lo > slack {
+		per := float64(hi-lo) / float64(samples[len(samples)-1].Reads-samples[third-1].Reads)
+		sum.Fail("the live heap of the process grows with the number of records read (something outside the node tree is retained)",
+			c, map[string]interface{}{"live_heap_first_third": lo, "live_heap_last_third": hi, "growth_bytes": hi - lo,
+				"approx_bytes_per_record": per, "records_read": reads, "samples": samples})
+		if verbose {
+			fmt.Printf("ORACLE FAILS: live heap grows by %d bytes (about %.0f per record)\n", hi-lo, per)
+		}
+	} else if verbose {
+		fmt.Println("oracle holds: live heap does not grow")
+	}
+	return true
+}
+
 type corpusFile struct {
 	Case   Case   `json:"case"`
 	Expect string `json:"expect"`
 	Note   string `json:"note"`
+}
+
+// a heap run of 6*10^4 small records takes about a second; a run that is still going after this
+// long is quadratic (something retained is searched again and again)
+const heapDeadline = 90 * time.Second
+
+func heapSlack(o *vh.Opts) uint64 {
+	if o.Tier == "thorough" {
+		return 2 << 20
+	}
+	return 1 << 20
 }
 
 func main() {
@@ -610,7 +858,12 @@ func main() {
 			fmt.Println("cannot read replay file", o.Replay, err)
 			os.Exit(2)
 		}
-		nt := runCase(o, &rf.Case, sum, cw, true)
+		var nt bool
+		if rf.Case.Heap {
+			nt = heapRun(o, &rf.Case, sum, heapSlack(o), true)
+		} else {
+			nt = runCase(o, &rf.Case, sum, cw, true)
+		}
 		fmt.Println("case key:", vh.KeyOf(&rf.Case))
 		sum.Count(o.Replay, nt)
 		cw.Flush()
@@ -657,6 +910,9 @@ func main() {
 	tfails := []string{"none", "every-k", "burst", "start", "most"}
 	// record-at-a-time readers
 	for _, fx := range flatFixtures() {
+		if fx.variant != "" {
+			continue
+		}
 		one(flatCase(fx, false, false, "none", big, r))
 		one(flatCase(fx, true, fx.sep != "", "burst", size(true), r))
 		for _, tf := range tfails {
@@ -664,6 +920,16 @@ func main() {
 			one(flatCase(fx, filter, fx.sep != "" && r.Chance(0.4), tf, size(false), r))
 		}
 		one(flatCase(fx, true, false, "none", size(false), r))
+	}
+	// targets with child records / group targets: runs of consecutive rejected instances
+	for _, fx := range flatFixtures() {
+		if fx.variant == "" {
+			continue
+		}
+		one(flatCase(fx, false, false, "none", size(false), r))
+		one(flatCase(fx, true, false, "none", size(true), r))
+		one(flatCase(fx, true, fx.sep != "" && r.Chance(0.5), tfails[r.Pick(len(tfails))], size(false), r))
+		one(flatCase(fx, r.Chance(0.5), false, tfails[1+r.Pick(4)], size(false), r))
 	}
 	// XML stream reader (no character data between records: F7 is replayed from the corpus)
 	one(xmlCase("none", false, "none", big, r))
@@ -682,6 +948,28 @@ func main() {
 		one(jsonCase(sh, true, true, tfails[r.Pick(len(tfails))], size(false), r))
 		one(jsonCase(sh, true, false, "none", size(false), r))
 	}
+	// ---- live heap over long inputs: every format and record style, with and without filter ----
+	long := 60000
+	if o.Tier == "thorough" {
+		long = 300000
+	}
+	heap := func(c *Case) {
+		c.Heap = true
+		c.Kind = "heap " + c.Kind
+		nt := heapRun(o, c, sum, heapSlack(o), false)
+		canon, _ := json.Marshal(c)
+		sum.Count(string(canon), nt)
+		sum.Hist("format:" + c.Format)
+		sum.Hist("heap-run")
+	}
+	for _, fx := range flatFixtures() {
+		heap(flatCase(fx, false, false, "none", long, r))
+		heap(flatCase(fx, true, false, "none", long, r))
+	}
+	heap(xmlCase("none", false, "none", long, r))
+	heap(xmlCase("child", false, "none", long, r))
+	heap(jsonCase("root-array", false, false, "none", long, r))
+	heap(jsonCase("object-values", false, true, "none", long, r))
 	cw.Flush()
 	sum.CaseFiles = cw.Files
 	sum.Write(o)
